@@ -451,8 +451,7 @@ impl<D: Distance> Writer<D> {
             main: MainStep::RetrievingTheUsedTreeNodes,
             sub: None,
         });
-        Ok(self
-            .database
+        self.database
             .remap_key_type::<PrefixCodec>()
             .prefix_iter(rtxn, &Prefix::tree(self.index))?
             .remap_types::<KeyCodec, DecodeIgnore>()
@@ -461,7 +460,6 @@ impl<D: Distance> Writer<D> {
                 bitmap.insert(used?.0.node.item);
                 Ok(bitmap)
             })
-            .unwrap_or_default())
     }
 
     // we simplify the max descendants (_K) thing by considering
